@@ -46,6 +46,11 @@ def unwatch(tens):
         tens.cores[i].requires_grad_(False)
 
 
+def _copy(g):
+    # the .grad buffers are accumulated into by every later backward pass: hand out copies
+    return None if g is None else g.clone()
+
+
 def grad(val, tens, core_indices = None):
     """
     Compute the gradient w.r.t. the cores of the given TT-tensor (or TT-matrix).
@@ -64,11 +69,11 @@ def grad(val, tens, core_indices = None):
         c.grad = None
     val.backward()
     if core_indices == None:
-        cores = [ c.grad for c in tens.cores]
+        cores = [ _copy(c.grad) for c in tens.cores]
     else:
         cores = []
         for idx in core_indices:
-            cores.append(tens.cores[idx].grad)
+            cores.append(_copy(tens.cores[idx].grad))
     return cores
 
 def grad_list(val, tensors, all_in_one = True):
@@ -91,8 +96,8 @@ def grad_list(val, tensors, all_in_one = True):
     cores_list = []
     if all_in_one:
         for t in tensors:
-            cores_list += [ c.grad for c in t.cores]
+            cores_list += [ _copy(c.grad) for c in t.cores]
     else:
         for t in tensors:
-            cores_list.append([ c.grad for c in t.cores])
+            cores_list.append([ _copy(c.grad) for c in t.cores])
     return cores_list
